@@ -419,7 +419,7 @@ fn main() {
             // 9..10 validators: every subset of signers, the others uniformly one other kind
             for n in 9..=10 {
                 for pv in power_vectors(n, 0, true) {
-                    for other in 1..=4u8 {
+                    for other in 1..=5u8 {
                         jobs.push(Job::Light(pv.clone(), vec![0, other]));
                     }
                 }
@@ -457,7 +457,7 @@ fn main() {
         &ctx,
         rep,
         Spec {
-            rule: "LIGHT (through ExtendedHeader::validate, everything but the commit entries valid): n validators (quick 1..6, thorough 1..8) x power vectors {all of {1,2,3}^n for n<=4 (thorough 5), ramp 1..n, 100 each, 199/1/1/99.., 99/1/1/199.., one validator holding MAX_TOTAL-(n-1)} x every assignment of {V valid commit, F forged commit, O entry of another validator (its address, its valid signature), S own address but signature by another validator's key, N honest nil vote, A absent} to the n entries (6^n; the largest n of the tier without O: 5^n), plus for assignments over {V,A}: last entry dropped / duplicated / commit height+1; thorough adds n=9..10 with every signer subset and the non-signers uniformly F, O, N or A. TRUSTING (through trusted.verify(untrusted), non-adjacent, chain id and times right): nt trusted validators (quick 1..3 and 4, thorough 1..4 and 5) x power vectors x every sequence of length 0..=nt+1 (quick nt=4: 0..=3; nt=5: 0..=5) over {valid / forged / nil entry of each trusted validator, valid entry of a stranger, absent} — includes every double listing in both orders. distinct = (part, powers, assignment); non-trivial = signing power within one unit of the threshold, or a duplicated validator",
+            rule: "LIGHT (through ExtendedHeader::validate, everything but the commit entries valid): n validators (quick 1..6, thorough 1..8) x power vectors {all of {1,2,3}^n for n<=4 (thorough 5), ramp 1..n, 100 each, 199/1/1/99.., 99/1/1/199.., one validator holding MAX_TOTAL-(n-1)} x every assignment of {V valid commit, F forged commit, O entry of another validator (its address, its valid signature), S own address but signature by another validator's key, N honest nil vote, A absent} to the n entries (6^n; the largest n of the tier without O: 5^n), plus for assignments over {V,A}: last entry dropped / duplicated / commit height+1; thorough adds n=9..10 with every signer subset and the non-signers uniformly F, O, N, A or S. TRUSTING (through trusted.verify(untrusted), non-adjacent, chain id and times right): nt trusted validators (quick 1..3 and 4, thorough 1..4 and 5) x power vectors x every sequence of length 0..=nt+1 (quick nt=4: 0..=3; nt=5: 0..=5) over {valid / forged / nil entry of each trusted validator, valid entry of a stranger, absent} — includes every double listing in both orders. distinct = (part, powers, assignment); non-trivial = signing power within one unit of the threshold, or a duplicated validator",
             assumptions: &[
                 "verify_commit_light / verify_commit_light_trusting are private; they are observed through validate() / verify(), whose other checks are satisfied by construction (self-checked base header)",
                 "VERIF_SEED selects key material and hash payloads only",
